@@ -1,3 +1,2 @@
 #!/bin/sh
-cd /verif
-for s in "$@"; do python3 tools/run_seed.py seeded/$s 2>&1 | tail -n 1 | cut -c1-300; done
+exec python3 /verif/tools/runseeds.py "$@"
